@@ -487,6 +487,7 @@ func (p *Process) onProcessEnd(state string) {
 	p.done = true
 	p.Unlock()
 	p.procCond.Broadcast()
+	p.runCancelFn()
 }
 
 func (p *Process) getLogPath() string {
